@@ -57,6 +57,7 @@ def theta_lattice(n, bound, rng, n_generic, f32_exp_cap=None):
         alt = (-1.0) ** np.arange(n)
         pats.append(alt)
         pats.append(-alt)
+    pats.append(np.zeros(n))  # the zero vector: admissible for every map that is not a quotient / orthonormalisation (kappa = inf there)
     pats.append((np.arange(n) + 1.0) / n)  # ramp
     ch = _chirp(n)
     pats.append(ch)
@@ -204,7 +205,10 @@ class SphereSpec(Spec):
         return f(th, c['field'] == 'real')
 
     def kappa(self, th, c):
-        return np.full(len(th), float(th.shape[1]))
+        k = np.full(len(th), float(th.shape[1]))
+        if c['method'] == 'quotient':
+            k[np.linalg.norm(th, axis=1) == 0] = np.inf  # 0/|0|: outside the domain of the quotient map
+        return k
 
     def member(self, X, th, c, tol):
         return {'unit_norm': np.abs(np.linalg.norm(X, axis=1) - 1) <= tol}
@@ -225,7 +229,10 @@ class SimplexSpec(Spec):
         return f(th)
 
     def kappa(self, th, c):
-        return np.full(len(th), float(th.shape[1]))
+        k = np.full(len(th), float(th.shape[1]))
+        if c['method'] == 'sphere':
+            k[np.linalg.norm(th, axis=1) == 0] = np.inf
+        return k
 
     def member(self, X, th, c, tol):
         return {'nonnegative': (X >= 0).all(axis=1) & np.isreal(X).all(axis=1), 'sums_to_one': np.abs(X.sum(axis=1) - 1) <= tol}
@@ -281,7 +288,10 @@ class SymmetricSpec(Spec):
         return nq.manifold.to_symmetric_matrix(th, c['dim'], is_trace0=c['trace0'], is_norm1=c['norm1'])
 
     def kappa(self, th, c):
-        return np.full(len(th), float(c['dim']))
+        k = np.full(len(th), float(c['dim']))
+        if c['norm1']:
+            k[np.linalg.norm(th, axis=1) == 0] = np.inf  # the zero matrix cannot be normalised
+        return k
 
     def member(self, X, th, c, tol):
         scale = np.maximum(1.0, maxabs(X, (1, 2)))
@@ -678,7 +688,7 @@ def module_configs(dims):
                             for ph in ((False, True) if (m == 'euler' and f == 'complex') else (False,)):
                                 cs.append(dict(base, cls='Stiefel', field=f, method=m, rank=r, phase=ph))
                 for m in ('softmax', 'sphere'):
-                    for w in (False, True):
+                    for w in (False, True, 'int'):
                         cs.append(dict(base, cls='DiscreteProbability', field='real', method=m, weight=w))
                 # composed
                 for m in ('quotient', 'coordinate'):
@@ -742,7 +752,7 @@ def build_module(nq, c):
     if cls == 'Stiefel':
         return M.Stiefel(d, c['rank'], bs, method=c['method'], euler_with_phase=c['phase'], dtype=dt), ('stiefel', fc), None
     if cls == 'DiscreteProbability':
-        w = (np.arange(d) + 1.0) / 2 if c['weight'] else None
+        w = None if not c['weight'] else (np.arange(1, d + 1) if c['weight'] == 'int' else (np.arange(d) + 1.0) / 2)  # 'int': integer dtype weights (multiplicities)
         return M.DiscreteProbability(d, bs, c['method'], weight=w, dtype=dt), ('simplex', fc), w
     if cls == 'SeparableDensityMatrix':
         return M.SeparableDensityMatrix(d, c['dimB'], c['num_cha'], bs, dtype=dt), None, None
